@@ -16,6 +16,7 @@ import (
 
 	"verif/dbm"
 	"verif/evid"
+	"verif/gen"
 	"verif/tparse"
 )
 
@@ -366,6 +367,15 @@ func drawRCase(t *rapid.T) *RCase {
 	p := &dbm.Profile{Prop: "C19", MinOps: 10, MaxOps: 220, DetPercent: 60, SlowRemovePercent: 30,
 		W: map[string]int{"put": 36, "del": 10, "batch": 8, "bigbatch": 1, "compact": 3, "reopen": 1, "idle": 3, "snap": 2, "snaprel": 1, "get": 2, "churn": 1}}
 	c := &RCase{Base: dbm.Draw(t, p)}
+	nk := len(c.Base.Keys)
+	if rapid.IntRange(0, 3).Draw(t, "idletail") == 0 {
+		// the history ends with a reopen that flushes nothing followed by a few small writes: the
+		// live journal then has a higher number than every table and is not empty
+		c.Base.Ops = append(c.Base.Ops, dbm.Op{T: "reopen"}, dbm.Op{T: "reopen"})
+		for j := rapid.IntRange(1, 3).Draw(t, "tailputs"); j > 0; j-- {
+			c.Base.Ops = append(c.Base.Ops, dbm.Op{T: "put", K: rapid.IntRange(0, nk-1).Draw(t, "tk"), V: gen.VSpec{Len: rapid.IntRange(0, 20).Draw(t, "tv")}})
+		}
+	}
 	c.LateRelease = rapid.IntRange(0, 2).Draw(t, "laterelease") == 0
 	c.Manifest = rapid.SampledFrom([]string{"remove", "truncate", "garbage", "nometa"}).Draw(t, "manifest")
 	c.TruncAt = rapid.IntRange(0, 1<<16).Draw(t, "truncat")
@@ -380,6 +390,10 @@ func drawRCase(t *rapid.T) *RCase {
 		W: map[string]int{"put": 30, "del": 8, "batch": 6, "get": 6, "compact": 3, "reopen": 2, "idle": 2, "scan": 2}}
 	after := dbm.Draw(t, pa)
 	// the continued use shares the key pool of the history
+	if rapid.IntRange(0, 2).Draw(t, "afterreopen") == 0 {
+		// writes to the recovered DB must survive an ordinary close and reopen
+		c.After = append(c.After, dbm.Op{T: "put", K: rapid.IntRange(0, nk-1).Draw(t, "ak"), V: gen.VSpec{Len: 9}}, dbm.Op{T: "reopen"})
+	}
 	for _, op := range after.Ops {
 		c.After = append(c.After, op)
 	}
